@@ -37,14 +37,16 @@ def build_set(ctx, names):
             # "gcc-O2" or "gcc-O3+march=native+funsigned-char": extra flags after '+'
             base, *extra = n.split("+")
             cc, opt = base.split("-", 1)
-            out.append({"tag": n, "lib": ctx.lib(n.replace("=", "_"), cc, ["-" + opt] + ["-" + e for e in extra]), "cc": cc, "hflags": []})
+            hfl = ["-O2", "-flto"] + (["-fuse-ld=lld"] if cc == "clang" else []) if "flto" in extra else []
+            out.append({"tag": n, "lib": ctx.lib(n.replace("=", "_"), cc, ["-" + opt] + ["-" + e for e in extra]), "cc": cc, "hflags": hfl})
     return out
 
 
 MATRIX = ["gcc-O0", "gcc-O1", "gcc-O2", "gcc-O3", "gcc-Os", "clang-O0", "clang-O1", "clang-O2", "clang-O3", "clang-Os"]
 # code-generation variants beyond the optimisation level: wide vector units, the other signedness of plain char
 MATRIX_X = ["gcc-O3+march=native", "clang-O3+march=native", "gcc-O2+funsigned-char", "clang-O2+funsigned-char", "gcc-O2+fwrapv+fno-strict-aliasing",
-            "gcc-O2+std=c99+w", "clang-O2+std=c99+w"]        # strict ISO C language mode (CMAKE_C_EXTENSIONS=OFF)
+            "gcc-O2+std=c99+w", "clang-O2+std=c99+w",        # strict ISO C language mode (CMAKE_C_EXTENSIONS=OFF)
+            "gcc-O2+flto+ffat-lto-objects", "clang-O2+flto"]   # whole-program optimisation across the library's translation units
 
 
 def batch_jobs(ctx, exe, tag, args, nb):
@@ -503,9 +505,10 @@ def c18(ctx):
     jobs = []
     for name, cfg, pi in variants:
         cfgd = ctx.make_config(name, cfg)
-        for cc, fl, tag in (("gcc", ["-O2"], ""), ("gcc", asan_flags("gcc"), "-asan")) + ((("clang", msan_flags(), "-msan"),) if ctx.thorough else ()):
+        for cc, fl, tag in (("gcc", ["-O2"], ""), ("clang", ["-O3"], "-clangO3"), ("gcc", ["-O2", "-funsigned-char"], "-uchar"), ("gcc", asan_flags("gcc"), "-asan")) + (
+                (("clang", msan_flags(), "-msan"), ("gcc", ["-O0"], "-gccO0"), ("gcc", ["-Os", "-std=c99", "-w"], "-gccOs-c99")) if ctx.thorough else ()):
             lib = ctx.lib("trng-" + name + tag, cc, fl, cfg=cfgd, pre_include=pi)
-            hfl = fl if tag else []
+            hfl = fl if tag in ("-asan", "-msan") else []
             exe = ctx.harness("h_trng-" + name + tag, "h_trng.c", lib, cc=cc, flags=hfl, ldflags=["-ldl"])
             jobs += batch_jobs(ctx, exe, "trng-" + name + tag, ["--mode", name, "--p1", K], 4)
     # the production object as configured by the project's own cmake run
@@ -605,7 +608,8 @@ def c20(ctx):
     for b in builds:
         exe = ctx.harness("h_erase-" + b["tag"], "h_erase.c", b["lib"], cc=b["cc"], flags=b["hflags"], with_model=False)
         jobs += batch_jobs(ctx, exe, b["tag"], ["--mode", "free", "--p1", NF], 2)
-        jobs += batch_jobs(ctx, exe, b["tag"], ["--mode", "clean", "--p1", NC], 2)
+        big = 1 if b["tag"] in ("prod-cmake-Release", "gcc-O2-bzero", "gcc-O2-fallback", "clang-O2-fallback") else 0     # 2..4 GiB cases: a few builds only
+        jobs += batch_jobs(ctx, exe, b["tag"], ["--mode", "clean", "--p1", NC, "--p2", big], 2)
     ctx.run_jobs(jobs, timeout=1800)
 
     # ---- wipe survival in unity / LTO builds, both configurations of the primitive, with positive controls
@@ -704,7 +708,7 @@ def c20(ctx):
             ctx.inconclusive.append("positive controls (memset / plain loop wipes) were not seen to fail at >= -O1: the probe cannot see a deleted wipe here")
     ctx.rule = ("(a) 4 state types x random histories (0..8 operations incl. finalize/reinit/exhaustion/reseed, cut at a random point) then the free "
                 "function; all sizeof(public state) bytes read back; object against a guard page or between canaries; (b) tinyjambu_clean for EVERY "
-                "(offset 0..15, size 0..N) + sizes {4095,4096,4097,65535,65536,1 MiB+3}, junk arena compared byte by byte; every third case ends exactly "
+                "(offset 0..15, size 0..N) + sizes {4095,4096,4097,65535,65536,1 MiB+3} and 2^31+5 (thorough also 2^32-1) on four builds, junk arena compared byte by byte; every third case ends exactly "
                 "at a guard page; (c) wipe-survival probe: unity TU including /repo's tinyjambu-clean.c, {explicit_bzero, volatile fallback} x {gcc, clang} x "
                 "{-O0,-O1,-O2,-O3,-Os,-O2 -flto}; the dead buffer is read at its recorded address; memset/plain-loop controls must be seen to fail; (d) the four free functions with ALL library sources linked -flto ({gcc -O2, gcc -O3, clang -O2} x both configurations): a state object built on a dying stack frame is read back after its free function; a memset control must be seen to be removed. "
                 "Configurations of (a),(b): cmake production library, ASan/UBSan, {gcc, clang} x opt levels x {explicit_bzero, fallback}, and the same in strict ISO C mode (-std=c99); half of the clean calls leave recognisable garbage in the upper half of the 64-bit size register, as a caller passing `unsigned` may. "
@@ -921,7 +925,9 @@ def run_valgrind(ctx, jobs, timeout=3000):
 def c06(ctx):
     load_replay(ctx)
     W, NL = ctx.q((12, 7), (48, 42))
-    names = ctx.q(["prod", "gcc-O2", "asan-gcc", "asan-clang", "msan"], ["prod", "gcc-O0", "gcc-O2", "gcc-O3", "clang-O2", "clang-O3", "asan-gcc", "asan-clang", "asan-gcc-O3", "msan"])
+    names = ctx.q(["prod", "gcc-O2", "gcc-Os", "clang-Os", "asan-gcc", "asan-clang", "asan-gcc-Os", "msan"],
+                  ["prod", "gcc-O0", "gcc-O1", "gcc-O2", "gcc-O3", "gcc-Os", "clang-O0", "clang-O2", "clang-O3", "clang-Os", "gcc-O2+funsigned-char", "gcc-O2+std=c99+w",
+                   "asan-gcc", "asan-clang", "asan-gcc-O3", "asan-gcc-Os", "asan-clang-Os", "asan-gcc-O0", "msan"])
     builds = build_set(ctx, names)
     jobs = []
     for b in builds:
